@@ -163,11 +163,14 @@ type DigProfile struct {
 	Salt  uint64
 	// OrderRevealing: level-0 digest is a monotone function of an integer key (Uint64Value keys only)
 	OrderRevealing bool
-	Levels         uint // number of digest levels (default 4)
+	// Paired: Uint64Value keys 2i and 2i+1 share their level-0 digest and differ on every other level, so that every
+	// collision group has exactly two members (collapse of a group on removal of either)
+	Paired bool
+	Levels uint // number of digest levels (default 4)
 }
 
 func (p DigProfile) String() string {
-	return fmt.Sprintf("alpha=%v salt=%d ord=%v", p.Alpha, p.Salt, p.OrderRevealing)
+	return fmt.Sprintf("alpha=%v salt=%d ord=%v paired=%v", p.Alpha, p.Salt, p.OrderRevealing, p.Paired)
 }
 
 type advBuilder struct {
@@ -215,6 +218,11 @@ func (b *advBuilder) digests(msg []byte, v atree.Value) [4]atree.Digest {
 	if b.prof.OrderRevealing {
 		if u, ok := v.(tu.Uint64Value); ok {
 			out[0] = atree.Digest(uint64(u)*16 + 1000)
+		}
+	}
+	if b.prof.Paired {
+		if u, ok := v.(tu.Uint64Value); ok {
+			out[0] = atree.Digest(mix64(mix64(b.prof.Salt) + uint64(u)/2))
 		}
 	}
 	return out
